@@ -70,6 +70,13 @@ func (tr *Tr) safety(fr *frame, kind string, cond string, pos token.Pos, desc st
 	if cond == "true" {
 		return
 	}
+	if top := tr.topFrame; top != nil && top.contract != nil && top.contract.FrameOnly && tr.pure == 0 {
+		// frame_only: an operation that panics ends the execution (nothing is written after it); the
+		// contract is about what is written, so the execution continues only if it did not panic
+		tr.assume(fr.curReach, cond)
+		tr.vc.Abstract["frame_only: panicking operation not an obligation ("+kind+")"]++
+		return
+	}
 	tr.oblige(fr, kind, "", "", fr.curReach, cond, pos, desc)
 }
 
@@ -445,6 +452,9 @@ func (tr *Tr) unop(fr *frame, x *ssa.UnOp, set func(ssa.Value, string)) {
 			bound = tr.curA(fr)
 		}
 		tr.assume(fr.curReach, tr.belowAlloc(r, bound))
+		if g, ok := x.X.(*ssa.Global); ok && tr.G.nonNilGlobal(g) {
+			tr.assume(fr.curReach, not(eq(r.T, "0")))
+		}
 		if g, ok := x.X.(*ssa.Global); ok && g.Pkg != nil && !strings.HasPrefix(g.Pkg.Pkg.Path(), modulePath) &&
 			strings.HasPrefix(g.Name(), "Err") && types.Identical(g.Type().(*types.Pointer).Elem(), types.Universe.Lookup("error").Type()) {
 			// sentinel errors of the standard library (io.EOF is spelled EOF and not covered): never nil
